@@ -61,15 +61,24 @@
    Liveness of the glue's reader side: [C02_dispatch_delivers] -- once a complete accepted frame
    is in the input ring (any reachable glue state), one mpt_stream_dispatch delivers a message.
 
-   What remains outside the theorems (hence "partial" overall): that flush and poll move every
-   finished byte through the kernel (transfer progress depends on the oracle) is decided against
-   the specification [sspec_run] only; the poll() paths with a timeout, POLLOUT handling and
-   memory-mapped streams are not modelled. *)
+   END TO END THROUGH THE GLUE (GlueDrain.v): [C02_dispatch_iff_frame_arrived] -- in ANY reachable
+   glue state one mpt_stream_dispatch hands over a message IF AND ONLY IF a delimiter is among the
+   unread bytes of the input ring (or a message is held), and the number of such messages goes
+   down by exactly one; [C02_quiet_world_delivered_all] -- a reachable world with nothing finished
+   in the output ring, nothing in flight and no delimiter unread has handed EVERY completed message
+   to the handler; [C02_drain_round_progress] -- in any other world a round of flush / poll /
+   dispatch (kernel that takes what it is offered) moves a byte or hands over a message;
+   [C02_history_drain_complete] -- after ANY glue history from fresh streams under ANY kernel
+   behaviour, a final GDrain ends in such a quiet world: handed over = completed, exactly.
+
+   What remains outside the theorems (hence "partial" overall): the kernel is an oracle (that a
+   real writev/readv eventually takes what it is offered is an assumption about the transport);
+   the poll() paths with a timeout, POLLOUT handling and memory-mapped streams are not modelled. *)
 From MptV Require Import Base.Mem Cobs.CobsModel Cobs.DecModel Cobs.EncProofs Cobs.EncTheorems
   Cobs.DecProofs Cobs.DecComplete Cobs.StreamSpec Cobs.StreamProofs
   C13.QueueModel Cobs.QueueCodec Cobs.QueuePushProofs Cobs.QueuePushTheorem Cobs.WriterHistory
   Cobs.DecCall Cobs.DecHistory Cobs.ReaderHistory Cobs.DecLive Cobs.ReaderLive Cobs.EndToEnd
-  Cobs.DecStream Cobs.ReaderStream Cobs.GlueRun Cobs.GlueProofs Cobs.GlueLive.
+  Cobs.DecStream Cobs.ReaderStream Cobs.GlueRun Cobs.GlueProofs Cobs.GlueLive Cobs.GlueDrain.
 
 Theorem C02_wire_splits_into_frames :
   forall v ms wire, frames_of v ms wire ->
@@ -309,6 +318,75 @@ Theorem C02_glue_poll_progress :
     gpoll w k = Ok (z, w', n) -> 1 <= n /\ gwire w' = skipn n (gwire w).
 Proof. exact gpoll_progress. Qed.
 
+
+(* THE DISPATCHER IS EXACT: in any state a glue history can reach, one mpt_stream_dispatch hands a
+   message to the handler if and only if a complete frame has arrived -- a delimiter is among the
+   unread bytes of the input ring, or a decoded message is held ([navail] counts them) -- and
+   afterwards exactly one message less is available.  No assumption on where in a frame the reader
+   is, on the ring geometry or on the gap: all of that follows from reachability ([grel]). *)
+Theorem C02_dispatch_iff_frame_arrived :
+  forall v w g z m w', grel v w g -> gdisp v w = Ok (z, m, w') ->
+    (1 <= navail (gr w) -> exists x, m = Some x) /\ (navail (gr w) = 0 -> m = None) /\
+    navail (gr w') = navail (gr w) - 1.
+Proof. exact gdisp_count. Qed.
+
+(* the dispatch loop of a drain round hands over exactly the available messages *)
+Theorem C02_dispatch_loop_hands_over_all :
+  forall v fuel w g got w' got', grel v w g -> navail (gr w) <= fuel ->
+    gdisp_all fuel v w got = Ok (w', got') ->
+    length got' = length got + navail (gr w) /\ navail (gr w') = 0.
+Proof. exact gdisp_all_count. Qed.
+
+(* NOTHING IS EVER STUCK: a reachable world in which nothing is finished in the output ring,
+   nothing is in flight and no complete frame is unread has delivered every completed message *)
+Theorem C02_quiet_world_delivered_all :
+  forall v w g, grel v w g -> quiet w -> g_del g = wh_done (g_ws g).
+Proof. exact glue_quiescent_all. Qed.
+
+(* ... and a world that is not quiet moves: one round of flush / poll / dispatch with a kernel
+   that takes what it is offered transfers at least one byte while bytes are in flight (and the
+   number in flight goes down), hands over every available message, and leaves none available *)
+Theorem C02_drain_round_progress :
+  forall v w g got, variant_ok v -> grel v w g ->
+  forall z1 w1 n1 z2 w2 n2 w3 got3,
+  (if edone (eq_st (gw w)) =? 0 then Ok (0%Z, w, 0) else gflush w (Z.of_nat (edone (eq_st (gw w))))) = Ok (z1, w1, n1) ->
+  (match gwire w1 with [] => Ok (0%Z, w1, 0) | _ => gpoll w1 (length (gwire w1)) end) = Ok (z2, w2, n2) ->
+  gdisp_all (S (qlen (dq_q (gr w2)))) v w2 got = Ok (w3, got3) ->
+  edone (eq_st (gw w3)) = 0 /\ navail (gr w3) = 0 /\
+  (inflight w = 0 -> n1 = 0 /\ n2 = 0 /\ gwire w3 = [] /\ length got3 = length got + navail (gr w)) /\
+  (1 <= inflight w -> (1 <= n1 \/ 1 <= n2) /\ inflight w3 <= inflight w - 1).
+Proof. exact drain_round. Qed.
+
+(* GDrain (the fuel the model gives it suffices) ends quiet and has handed over all completed messages *)
+Theorem C02_drain_delivers_all :
+  forall v w g w' got, variant_ok v -> grel v w g ->
+    gdrain (gdrain_fuel w) v w [] = Ok (w', got) ->
+    quiet w' /\ g_del g ++ got = wh_done (g_ws g).
+Proof. exact gdrain_delivers_all. Qed.
+
+(* END TO END THROUGH THE GLUE: whatever happened before -- any pushes (also refused or partial
+   ones), flushes and polls with any kernel behaviour incl. failures, dispatches at any time, ring
+   capacities from none -- a final drain hands over EXACTLY the messages completed on the writer
+   side (the messages the return values of mpt_stream_push say), in order, none lost, none twice *)
+Theorem C02_history_drain_complete :
+  forall v wcap woff rcap roff ops w' sp' del', variant_ok v ->
+    gfold v (gworld_init wcap woff rcap roff) (mkgsp [] []) [] (ops ++ [GDrain]) = Ok (w', sp', del') ->
+    del' = sp_done sp' /\ quiet w'.
+Proof. exact glue_history_drain_complete. Qed.
+
+(* non-vacuity: a history with failing, empty and partial transfers, a message of 300 bytes that
+   makes both rings grow, an early dispatch in the middle of a frame; the final drain completes *)
+Example C02_history_drain_example :
+  match gfold v_zpe_r (gworld_init 0 0 0 0) (mkgsp [] []) []
+          ([GPush [65;0;0;66]%N; GFin; GFlush (-1); GFlush 2; GPoll 1; GDisp; GPush (repeat 7%N 300); GFlush 100; GPoll 70; GDisp;
+            GFin; GPush [1;2]%N; GFin; GPush [9]%N] ++ [GDrain]) with
+  | Ok (w', sp', del') =>
+    del' = sp_done sp' /\ length del' = 3 /\ map (@length _) del' = [4; 300; 2] /\ sp_cur sp' = [9]%N /\
+    navail (gr w') = 0 /\ gwire w' = []
+  | _ => False
+  end.
+Proof. vm_compute. repeat split; reflexivity. Qed.
+
 (* non-vacuity: three messages flushed and polled completely into a fresh reader, then three dispatches *)
 Example C02_glue_dispatch_all_example :
   match gfold v_zpe_r (gworld_init 0 0 0 0) (mkgsp [] []) []
@@ -415,3 +493,9 @@ Print Assumptions C02_glue_dispatch_all.
 Print Assumptions C02_glue_dispatch_from_mid_frame.
 Print Assumptions C02_glue_flush_all.
 Print Assumptions C02_glue_poll_progress.
+Print Assumptions C02_dispatch_iff_frame_arrived.
+Print Assumptions C02_dispatch_loop_hands_over_all.
+Print Assumptions C02_quiet_world_delivered_all.
+Print Assumptions C02_drain_round_progress.
+Print Assumptions C02_drain_delivers_all.
+Print Assumptions C02_history_drain_complete.
